@@ -238,7 +238,7 @@ def check(ctx, run):
             want = ("reserveCachedBlockFrom(getCacheNodeFromSize(%s))->memory_" if hfv else "allocateNewCacheBlockFrom(getCacheNodeFromSize(%s))->memory_") % sz
             ok = hfv is not None and r == want
         elif cached is False:
-            a = [(l, render(al, r_)) for l, r_, n in assignments(al, p)]
+            a = [(l, render(al, r_)) for l, r_, n in assignments(al, p) if l == "nonCachedAllocations_"]
             ok = a == [("nonCachedAllocations_", "createSimpleStringMemoryBlock(%s, nonCachedAllocations_)" % sz)] and r == "nonCachedAllocations_->memory_"
         else:
             ok = False
